@@ -1749,7 +1749,8 @@ VmTrap vm_core_execute(VmState *vm) {
 
         case OP_CAST_BOOL: {
             NanoValue v = stack_pop(vm);
-            bool result = val_truthy(v);
+            /* docs/STDLIB.md cast_bool: 0, an empty string or null are false, everything else is true */
+            bool result = (v.tag == TAG_STRING) ? (v.as.string != NULL && v.as.string->length > 0) : val_truthy(v);
             vm_release(&vm->heap, v);
             stack_push(vm, val_bool(result));
             break;
